@@ -150,3 +150,6 @@ func GlobalNames() []string {
 	}
 	return out
 }
+
+// Sprint renders a value for the globals fingerprint.
+func Sprint(v any) string { return fmt.Sprintf("%v", v) }
